@@ -413,6 +413,7 @@ Fixpoint recover_loop (fuel : nat) (c : cfg) (st : rst) : rst * option rerr :=
         match peek_header c st with
         | (st, Ok _) => (st, None)
         | (st, Panic) => (set_bad st BPanic, None)
+        | (st, Err (RIo code)) => (st, Some (RIo code))     (* an error of the source ends the scan (fix D25) *)
         | (st, Err _) => recover_loop f c st
         end
     end
